@@ -283,8 +283,7 @@ pub struct SnapCheck<'a> {
     pub cfg: &'a Cfg,
     pub stats: &'a mut crate::exec::Stats,
     pub seen: BTreeSet<(u64, usize, usize)>,
-    /// replay of one narrowed fault point (or a property that asks for it): do every follow-up
-    /// check on every state instead of on a (call-index selected) quarter of them
+    /// C11: do every follow-up check on every state instead of on a (call-index selected) quarter
     pub all_followups: bool,
 }
 
@@ -431,11 +430,9 @@ pub fn run_faulty(case: &Case, dir: PathBuf) -> Outcome {
     let mut violation: Option<Violation> = None;
     let mut narrowed_fault = None;
     let mut chk_stats = crate::exec::Stats::default();
-    let all_followups = case.prop == "C11"
-        || match &case.fault {
-            Fault::Crash { points: Some(p), .. } | Fault::Power { points: Some(p), .. } => !p.is_empty(),
-            _ => false,
-        };
+    // (the selection must be the same in the sweep and in the replay of one narrowed point: an
+    // extra reopen in between can heal what the continuation would have exposed)
+    let all_followups = case.prop == "C11";
     let mut seen = BTreeSet::new();
     // power loss: index into history below which everything is known durable
     let mut durable = 0usize;
